@@ -37,10 +37,9 @@ end
 /-- "no file has more than one link inside the scanned forest" -/
 def NoMultiLink (e : List HNode) : Prop := (keysList e).Nodup
 
-/-- strictly increasing in `strcmp` order -/
-def sortedNames : List Name → Bool
-  | [] => true
-  | [_] => true
-  | a :: b :: r => nameLt a b && sortedNames (b :: r)
+/-- strictly increasing in `strcmp` order (what `insert_sorted` maintains for the children of a directory) -/
+def SortedNames (l : List Name) : Prop := l.Pairwise (fun a b => nameLt a b = true)
+
+instance (l : List Name) : Decidable (SortedNames l) := by unfold SortedNames; infer_instance
 
 end Sqfs.FsTree
